@@ -22,6 +22,7 @@ void
 h_instantiate(void)
 {
 	DRBG_PRE();
+	DRBG_MEMZERO();
 	size_t fail0 = g_er_fails;
 	int rc;
 
